@@ -58,7 +58,7 @@ def run(ctx, rep):
         if ok:
             callees[v['name']] = arms[0]['calls'][0]['f']
     # struct: every field, unfiltered
-    fs = ctx.fn(callees.get('Struct', 'get_struct_dependencies'), file='topsort.rs')
+    fs = ctx.fnx(callees.get('Struct', 'get_struct_dependencies'), file='topsort.rs')
     loops = [l for l in fs['loops'] if l.get('kind') == 'for' and 'fields' in vt.show(l['over'])]
     ok = bool(loops) and any(c.get('f') == 'get_dependencies_from_type' and '.ty' in vt.show(c['args'][0]) for c in fs['calls'])
     rep.check(ok, 'G2', 'struct:fields', 'every field type collected', 'get_struct_dependencies does not pass each field type to get_dependencies_from_type', {'file': fs['file'], 'line': fs['line']})
@@ -79,7 +79,7 @@ def run(ctx, rep):
     coverage.check_recursion(rep, 'G2', ctx, fe, 'RustEnumVariant', ['get_dependencies_from_type'], 'get_enum_dependencies', needle=r'RustType|RustField')
     # alias / const
     for kind, fld in (('Alias', 'r#type'), ('Const', 'r#type')):
-        fx = ctx.fn(callees.get(kind, ''), file='topsort.rs')
+        fx = ctx.fnx(callees.get(kind, ''), file='topsort.rs')
         ok = any(c.get('f') == 'get_dependencies_from_type' and ('type' in vt.show(c['args'][0])) for c in fx['calls'])
         rep.check(ok, 'G2', f'{kind.lower()}:type', 'target type collected', f"{fx['name']} does not pass the {kind.lower()}'s type to get_dependencies_from_type", {'file': fx['file'], 'line': fx['line']})
     # G3 drivers
